@@ -1,5 +1,5 @@
 From Coq Require Import Extraction ExtrOcamlBasic.
-From SL Require Import GC.Model.
+From SL Require Import GC.Model GC.Multi.
 Extraction Language OCaml.
 Extraction "gc_gen.ml" byte_of_N byte_to_N parse_dec_Z decZ
-  File Dir run_gc run_twpath run_tilesize.
+  File Dir run_gc run_twpath run_tilesize run_gcmulti.
